@@ -138,6 +138,14 @@ def monitor(contract, ncases, rng, on_case=None):
         for gname, (gtype, gexpr) in contract.ghost.items():
             bindings[gname] = rtc.evaluate(contract, gexpr, dict(bindings), case.get("universe"))
         if not rtc.satisfies_pre(contract, bindings, case.get("universe")):
+            if getattr(contract, "pre_must_hold", False):
+                # the generator builds its inputs through the public API only: every one of them is a
+                # reachable state, so a false precondition means the contract's assumption about the
+                # rest of the code is wrong (the proof would be vacuous there)
+                desc = case.get("describe") or repr((args, kwargs))[:400]
+                return n, {"clause": rtc.failing_pre(contract, bindings, case.get("universe")), "kind": "assumed-pre",
+                           "detail": "precondition assumed about reachable states is false on an input built through the public API",
+                           "input": desc, "case_seed": case_seed, "target": contract.key, "module": contract.module}
             continue
         n += 1
         desc = case.get("describe") or repr((args, kwargs))[:400]
@@ -282,6 +290,9 @@ def run_t1(rep: Report, modnames, pid=None, quick=True, monitor_cases=200):
             ):
                 # modular proof: a callee broke *its* contract (reported there)
                 pass
+            elif viol is not None and viol.get("kind") == "assumed-pre":
+                sig = f"T3 {c.target}: assumed precondition is false on a reachable state: {viol['clause']}"
+                rep.violation(sig, {"function": c.target, "counterexample": viol})
             elif viol is not None and viol.get("clause") in c.ensures_rt:
                 # a clause outside the prover's subset (checked only by the monitor)
                 sig = f"T3 {c.target} run-time-only contract clause violated: {viol['clause']}"
